@@ -158,8 +158,8 @@ Proof.
   - destruct (inrec st); reflexivity.
   - apply depth_unset.
   - destruct (stk st) as [|fs r] eqn:Es; [simp_stk; now rewrite Es|].
-    destruct (fs_get x fs) as [[| | | | |m]|]; simp_stk; try (now rewrite Es).
-    destruct (fs_poke x (VMap (remove_indexed_map m (v0 :: vs))) fs) eqn:E; simp_stk; rewrite ?Es; [|reflexivity].
+    destruct (fs_get x fs) as [c|]; simp_stk; try (now rewrite Es).
+    destruct (fs_poke x (remove_indexed c (v0 :: vs)) fs) eqn:E; simp_stk; rewrite ?Es; [|reflexivity].
     apply len_poke in E. unfold depth; cbn. now rewrite E.
 Qed.
 
@@ -206,6 +206,9 @@ Proof.
   - dstmt.
   - dstmt.
   - (* SCall *) apply (exec_call_inv fns f HP) in H; [|now apply depth_ne]. now rewrite H.
+  - dstmt.
+  - dstmt.
+  - dstmt.
 Qed.
 
 Lemma step_dinv : dinv (step fns f).
